@@ -53,6 +53,7 @@ type opRec struct {
 	issueT, retT       int64
 	issueStep, retStep int
 	poisonedAtIssue    bool
+	reportedAtIssue    bool // the failure had already been reported on closeChan when this request was issued
 	n                  int
 	err                error
 	dataOK             bool
@@ -171,6 +172,7 @@ func (st *c15State) caller(ci int) {
 			r := &st.recs[i]
 			r.issued, r.issueT, r.issueStep = true, vs.NowNS(), st.step
 			r.poisonedAtIssue = rpc.VerifClientErr(st.client) != nil
+			r.reportedAtIssue = len(st.closeChan) > 0
 		})
 		switch o.kind {
 		case 'R':
@@ -383,6 +385,9 @@ func (st *c15State) judge(earlyTimer bool) *Outcome {
 			if !r.replied {
 				viol("phantom-success", k, "request %d (%c) returned success but the peer never sent its reply", i, o.kind)
 			}
+			if r.reportedAtIssue {
+				viol("success-after-report", k, "request %d (%c) was issued after the connection failure had been reported on closeChan and still succeeded", i, o.kind)
+			}
 			if r.poisonedAtIssue {
 				viol("success-after-poison", k, "request %d (%c) was issued after the transport error had been handled and still succeeded", i, o.kind)
 			}
@@ -402,6 +407,11 @@ func (st *c15State) judge(earlyTimer bool) *Outcome {
 			}
 			if r.poisonedAtIssue && cl == "own-deadline" {
 				viol("late-after-handled", k, "request %d (%c) was issued after the transport error had been handled but returned only through its own deadline", i, o.kind)
+			}
+			if r.reportedAtIssue && cl == "own-deadline" && r.viaSelect {
+				// the connection had failed and the failure had been reported for detachment (token on closeChan) before
+				// this request was even issued: "every later request fails promptly"
+				viol("late-after-reported", k, "request %d (%c) was issued at %v, after the connection failure had been reported on closeChan, but was not turned away: it returned only when its own deadline fired at %v", i, o.kind, time.Duration(r.issueT), time.Duration(ownDeadline))
 			}
 			switch {
 			case late == "":
